@@ -5,7 +5,7 @@ from vlib import log
 from uplc_checks import cj, write_cfg
 
 TYMAP = {"Bool": ag.BOOL, "Int": ag.INT, "Color": ag.TAdt("Color"), "OptInt": ag.TOption(ag.INT), "OptColor": ag.TOption(ag.TAdt("Color")),
-         "Shape": ag.TAdt("Shape"), "Point": ag.TAdt("Point"), "ListInt": ag.TList(ag.INT), "ListIntSmall": ag.TList(ag.INT), "TupIntBool": ag.TTuple(ag.INT, ag.BOOL),
+         "Shape": ag.TAdt("Shape"), "Point": ag.TAdt("Point"), "ListInt": ag.TList(ag.INT), "ListIntSmall": ag.TList(ag.INT), "TupIntBool": ag.TTuple(ag.INT, ag.BOOL), "TupListSmall": ag.TTuple(ag.TList(ag.INT), ag.INT),
          "TupColorOpt": ag.TTuple(ag.TAdt("Color"), ag.TOption(ag.INT)), "PairIntBool": ag.TPair(ag.INT, ag.BOOL)}
 
 
@@ -152,8 +152,8 @@ def mc_match(tyname, k, workers=6):
 def c07(tier):
     t0 = time.time()
     rep = vlib.Reporter("C07")
-    plan = [("Bool", 3), ("Color", 3), ("OptInt", 3), ("TupIntBool", 2), ("Shape", 2), ("ListInt", 2), ("ListIntSmall", 3), ("PairIntBool", 2), ("OptColor", 2)] if tier == "quick" else \
-           [("Bool", 4), ("Color", 4), ("OptInt", 3), ("TupIntBool", 3), ("Shape", 3), ("ListInt", 3), ("ListIntSmall", 3), ("PairIntBool", 3), ("OptColor", 3), ("TupColorOpt", 2), ("Point", 3)]
+    plan = [("Bool", 3), ("Color", 3), ("OptInt", 3), ("TupIntBool", 2), ("Shape", 2), ("ListInt", 2), ("ListIntSmall", 3), ("TupListSmall", 4), ("PairIntBool", 2), ("OptColor", 2)] if tier == "quick" else \
+           [("Bool", 4), ("Color", 4), ("OptInt", 3), ("TupIntBool", 3), ("Shape", 3), ("ListInt", 3), ("ListIntSmall", 3), ("TupListSmall", 4), ("PairIntBool", 3), ("OptColor", 3), ("TupColorOpt", 2), ("Point", 3)]
     states = trans = total = accepted = rejected = runs = 0
     samples = []
     verdicts = {"ok": 0, "redundant": 0, "nonexhaustive": 0}
